@@ -2,7 +2,7 @@ CONSTANTS
   BrokerNames = {"http-root", "https-root", "https-port", "https-dir", "https-nodir", "https-nopath"}
   FrontNames = {"none", "front"}
   CacheNames = {"none", "root", "path"}
-  Statuses = {200, 204, 302, 404, 500}
+  Statuses = {100, 101, 200, 201, 204, 206, 301, 302, 303, 304, 307, 308, 400, 404, 500, 503}
   SizeNames = {"0", "small", "limit-1", "limit", "limit+1", "2limit"}
   PollLens = {0, 1, 300, 1500}
   MaxPolls = 3
